@@ -354,3 +354,17 @@ CAMLprim value vp_sse42_supported(value unit)
 	return Val_false;
 #endif
 }
+
+/* ---- compression names --------------------------------------------------------- */
+CAMLprim value vp_comp_to_str(value t)
+{
+	const char *s = mtbl_compression_type_to_str(Long_val(t));
+	if (s == NULL) return Val_int(0);
+	return some(caml_copy_string(s));
+}
+CAMLprim value vp_comp_from_str(value s)
+{
+	mtbl_compression_type t = 999;
+	if (mtbl_compression_type_from_str(String_val(s), &t) != mtbl_res_success) return Val_int(0);
+	return some(Val_long(t));
+}
